@@ -86,6 +86,11 @@ def gen(tier, rng):
     yield nodegen.restart_script(rng, "restart-dial-1", 1)
     yield nodegen.healing_script(rng, "heal-asym-12", 2, pt=60, chaos=100, asym=(1, 2))
     yield nodegen.stale_responder_script(rng, "stale-responder")
+    # "each opens what the other seals" also when no cipher was negotiated (both enabled plain)
+    yield nodegen.plain_script(rng, "plain-pair", ["only", True], seconds=6)
+    yield nodegen.plain_script(rng, "plain-all", [True, True, True], seconds=4)
+    # a late duplicate of the first ping opens an attempt next to the live session; when it is given up nothing may stay behind that blocks later handshakes
+    yield nodegen.late_duplicate_script(rng, "late-duplicate-ping")
     yield nodegen.healing_script(rng, "heal-asym-21", 2, pt=60, chaos=100, asym=(2, 1))
     for i in range(30 if thorough else 4):
         yield nodegen.healing_script(rng, "heal-%d" % i, rng.choice([2, 2, 3]), pt=rng.choice([60, 60, 130]), chaos=rng.choice([20, 60, 100, 130]), drop=rng.choice([30, 50, 70, 90]))
